@@ -42,7 +42,9 @@ RULE = ("one op = one macro invocation in a fresh fixture; integer operands from
         "(@ A Z [ ` a z {, 0x01, 0x80, 0xff) with NULL/empty/prefix/case-swapped/substring relations and lengths 0..len+1..SIZE_MAX; blocks with "
         "interior NUL x NULL x length incl. 0; masks x operand types x byte counts 1,2,4,8; doubles beyond +-FLT_MAX (1e39, 1e300, 2e300, DBL_MAX) and "
         "float-subnormal magnitudes; test bodies of several check statements (C++ and C style, passing prefix then failing checks, TEST_EXIT); "
-        "operands with side effects; every macro also in its _TEXT form; thorough: the lattices exhaustively. "
+        "operands with side effects; every macro also in its _TEXT form; a deterministic sweep in every run: every macro, plain and _TEXT, at every "
+        "operand type over pairs differing in exactly one bit (0, 7, 8, 15, 16, 31, 32, 47, 63) and the distinguishing string / block / double "
+        "pairs; thorough: the lattices exhaustively (plain and _TEXT forms alike). "
         "non-trivial = a case with at least one failing and one passing check; distinct = distinct op sequences")
 
 TYPES = ["i8", "u8", "i16", "u16", "i32", "u32", "i64", "u64"]
@@ -371,9 +373,7 @@ def op_bits(rng):
     else:
         va = pick_int(rng, t)
     km = rng.choice(MASKS[tm]) if rng.random() < 0.8 else pick_int(rng, tm)
-    m = rng.choice(["BITS_EQUAL", "C_BITS"])
-    if tm == "i32" and rng.random() < 0.3:
-        m += "_TEXT"
+    m = rng.choice(["BITS_EQUAL", "C_BITS", "BITS_EQUAL_TEXT", "C_BITS_TEXT"])
     return "bits %s %s %d %s %d %s %d" % (m, t, ve, t, va, tm, km)
 
 
@@ -429,8 +429,6 @@ def exhaustive(rng):
         for ve in LAT[t]:
             for va in LAT[t]:
                 for m in INT_MACROS_SAME:
-                    if m.endswith("_TEXT"):
-                        continue
                     ops.append("int %s %s %d %s %d" % (m, t, ve, t, va))
                 ops.append("cmp %s %s %d %s %d" % (rng.choice(["le", "gt", "eq", "ne"]), t, ve, t, va))
                 ops.append("enum %s %s %d %s %d" % (rng.choice(TYPES), t, ve, t, va))
@@ -490,6 +488,91 @@ def exhaustive(rng):
     return ops
 
 
+def flip(t, v, b):
+    """the value of type t whose bit pattern is that of v with bit b flipped"""
+    w = int(t[1:])
+    return convert_same_bits((v % (1 << w)) ^ (1 << b), "u64", t)
+
+
+FLIP_BITS = [0, 7, 8, 15, 16, 31, 32, 47, 63]
+
+
+def sweep():
+    """Deterministic width / expansion sweep, part of EVERY run: every macro in its plain and its _TEXT form over operand pairs
+    that differ in exactly one bit (bits 0, 7, 8, 15, 16, 31 = sign of int, 32, 47, 63 = sign of long) at every operand type wide
+    enough, plus an equal pair - so a macro that expands to a neighbour of another width, signedness or meaning gives a concrete
+    wrong verdict - and for the string / block / double macros the operand pairs that tell each macro from every other one."""
+    ops = []
+    for t in TYPES:
+        w = int(t[1:])
+        lo, hi = rng_of(t)
+        bases = sorted(set([0, hi, lo, min(hi, 0x55)]))
+        pairs = [(v, v) for v in bases[:2]]
+        for b in FLIP_BITS:
+            if b < w:
+                for v in bases:
+                    pairs.append((v, flip(t, v, b)))
+        for ve, va in pairs:
+            for m in INT_MACROS_SAME + ["CHECK_EQUAL"]:
+                ops.append("int %s %s %d %s %d" % (m, t, ve, t, va))
+            for o in RELOPS + ["lt_text"]:
+                ops.append("cmp %s %s %d %s %d" % (o, t, ve, t, va))
+            for tu in TYPES:
+                ops.append("enum %s %s %d %s %d" % (tu, t, ve, t, va))
+            for tu in ("i32", "u16"):
+                ops.append("enumt %s %s %d %s %d" % (tu, t, ve, t, va))
+        # truthiness and zero tests: single bits (a conversion to a narrower parameter loses the high ones)
+        for v in [0] + [flip(t, 0, b) for b in FLIP_BITS if b < w] + [hi, lo]:
+            for m in BOOL_MACROS:
+                ops.append("bool %s %s %d" % (m, t, v))
+            for m in ("CHECK_EQUAL_ZERO", "CHECK_EQUAL_ZERO_TEXT"):
+                ops.append("zero %s %s %d" % (m, t, v))
+        # masked bits: operands differing in one bit, masks selecting exactly that bit / everything but that bit
+        for b in FLIP_BITS:
+            if b < w:
+                for v in (0, hi):
+                    va = flip(t, v, b)
+                    for m in ("BITS_EQUAL", "BITS_EQUAL_TEXT", "C_BITS", "C_BITS_TEXT"):
+                        ops.append("bits %s %s %d %s %d u64 %d" % (m, t, v, t, va, 1 << b))
+                        ops.append("bits %s %s %d %s %d u64 %d" % (m, t, v, t, va, ((1 << 64) - 1) ^ (1 << b)))
+                        if b < 31:
+                            ops.append("bits %s %s %d %s %d i32 %d" % (m, t, v, t, va, 1 << b))
+                        if b < 8:
+                            ops.append("bits %s %s %d %s %d u8 %d" % (m, t, v, t, va, 1 << b))
+    for m in PTR_MACROS:
+        for v in (0, 4096, (1 << 64) - 1):
+            ops.append("ptr %s %d %d" % (m, v, v))
+            for b in (0, 12, 31, 32, 47, 63):
+                ops.append("ptr %s %d %d" % (m, v, v ^ (1 << b)))
+    # strings: (ab, AB) equal only without case; (abc, abd, n=2) equal only in the first n; (b, abc) / (B, abc) only contained;
+    # (abc, b) containment is not symmetric; NULL rules
+    spairs = [("6162", "4142", 2), ("616263", "616264", 2), ("616263", "616264", 3), ("62", "616263", 1), ("42", "616263", 1),
+              ("616263", "62", 3), ("616263", "616263", 3), ("-", "-", 0), ("-", "61", 1), ("null", "null", 0), ("null", "61", 1),
+              ("61", "null", 1), ("405b607b", "607b405b", 4), ("5a", "7a", 1)]
+    for e, a, n in spairs:
+        for m in STR_BASE + [x + "_TEXT" for x in STR_BASE]:
+            ops.append("str %s %s %s %d" % (m, e, a, n))
+    mpairs = [("61006364", "61006365", 4), ("61006364", "61006365", 3), ("61006364", "61006364", 4), ("null", "61006364", 4),
+              ("null", "61006364", 0), ("null", "null", 4), ("61", "62", 1), ("61", "62", 0)]
+    for e, a, n in mpairs:
+        for m in MEM_MACROS:
+            ops.append("mem %s %s %s %d" % (m, e, a, n))
+    one, onehalf, quarter, inf, ninf, nan = (bits_of(1.0), bits_of(1.5), bits_of(0.25), "7ff0000000000000", "fff0000000000000",
+                                             "7ff8000000000000")
+    for e, a, t in [(one, onehalf, one), (one, onehalf, quarter), (one, onehalf, bits_of(0.5)), (one, one, bits_of(0.0)), (inf, inf, quarter),
+                    (inf, ninf, quarter), (inf, ninf, inf), (ninf, ninf, bits_of(0.0)), (nan, nan, inf), (one, nan, inf),
+                    (bits_of(1e300), bits_of(2e300), one), (bits_of(-1e39), bits_of(-2e39), one)]:
+        for m in DBL_MACROS:
+            ops.append("dbl %s %s %s %s" % (m, e, a, t))
+        for m in ("CHECK_EQUAL", "CHECK_EQUAL_TEXT"):
+            ops.append("dbl %s %s %s %s" % (m, e, a, D_GRID[0]))
+    for m in FAIL_MACROS:
+        ops.append("fail " + m)
+    for k in ("nothing", "expected", "other", "other_class"):
+        ops.append("throws " + k)
+    return ops
+
+
 def generate(rng, tier):
     out = []
     if tier == "quick":
@@ -507,6 +590,8 @@ def generate(rng, tier):
                 grid.append("dbl %s %s %s %s" % (rng.choice(["DOUBLES_EQUAL", "C_REAL"]), e, a, t))
     for c in chunks(grid, 100):
         out.append(("dgrid", c))
+    for c in chunks(sweep(), 200):
+        out.append(("sweep", c))
     for _ in range(ncases // 10):
         ops = gen_case(rng, 12)
         for _ in range(6):
